@@ -9,6 +9,12 @@ props = sys.argv[2:] or [meta["property"]]
 def sh(cmd, cwd):
     p = subprocess.run(cmd, shell=True, cwd=cwd, stdout=subprocess.PIPE, stderr=subprocess.STDOUT)
     return p.returncode, p.stdout.decode("utf-8", "replace")
+# exclusive lock on /repo while it is mutated (ordinary ./check runs hold it shared)
+import fcntl
+os.makedirs("/verif/.work", exist_ok=True)
+_repo_lock = open("/verif/.work/repo.lock", "w")
+fcntl.flock(_repo_lock, fcntl.LOCK_EX)
+os.environ["VERIF_REPO_LOCK_HELD"] = "1"
 rc, out = sh("git status --porcelain --untracked-files=no", "/repo")
 if out.strip():
     print("repo not clean"); sys.exit(2)
